@@ -157,6 +157,7 @@ def stage_lines(report, tier, rng, dist, runner):
         case = S.gen_case(rng, runner=runner, max_n=4, p_fail=0.2, allow_dups=False)
         case['pre'] = []
         case['max_workers'] = 2
+        case['watchdog_s'] = 15
         if runner == 'l2' and ci == 0:
             # independent tasks queueing behind two workers: queued tasks are launched from inside wait()
             nn = 4
@@ -198,6 +199,16 @@ def stage_lines(report, tier, rng, dist, runner):
             if v is None and inj.fired == 1 and obs.get('unloadable'):
                 v = ('cache-inconsistent', f"after an interrupt at {inj.where} tasks {obs['unloadable']} are reported cached but cannot be loaded")
             if v is not None:
+                # a violation must replay: the same interrupt once more (an outcome that depends on how the runtime's own
+                # threads and finalisers interleave, e.g. a sporadic OSError(EBADF) out of a Manager proxy, is not a replay)
+                obs2, inj2 = run_lines(case, tgt, runner)
+                v2 = monitor_interrupted(obs2, inj2.fired, f'interrupt at {inj2.where} under the {runner} runner')
+                if v2 is None and inj2.fired == 1 and obs2.get('unloadable'):
+                    v2 = ('cache-inconsistent', '')
+                if v2 is None:
+                    dist['line_violation_not_reproduced'] += 1
+                    report.notes.append(f'line-level run not reproduced on a second attempt: {v[1][:200]}')
+                    continue
                 report.violation(f'C14:{v[0]}@{(inj.where or "?").split(" ")[0].split(":")[0]}', v[1], dict(case=case, line_event=tgt, where=inj.where, runner=runner, level='line'))
     return runs
 
